@@ -5,9 +5,9 @@
 # With SEED_IN_REPO=1 the patch is applied to /repo itself instead (git apply ... git checkout -- .).
 sd=$1; shift
 if [ -n "$SEED_IN_REPO" ]; then wt=/repo; else
-  wt=${SEED_WT:-/tmp/wt_detect}
-  [ -d $wt ] || git -C /repo worktree add --detach $wt >/dev/null 2>&1
-  git -C $wt checkout -q --detach $(git -C /repo rev-parse HEAD) || exit 2
+  wt=/tmp/wt_detect_$$
+  git -C /repo worktree add --detach $wt >/dev/null 2>&1 || exit 2
+  trap "git -C /repo worktree remove --force $wt" EXIT
 fi
 cd $wt || exit 2
 git status --short | grep -v "_build" && { echo "$wt not clean"; exit 2; }
